@@ -829,4 +829,56 @@ fn process_pending_worker(""")),
             return Err(actor_error!(illegal_state, "unlock negative amount: {}", amount));
         }
 """, expect=None),
+ dict(id='C09-transfer-exit-code-ignored', pid='C09', file='actors/verifreg/src/lib.rs',
+      old="""    extract_send_result(rt.send_simple(
+        &DATACAP_TOKEN_ACTOR_ADDR,
+        ext::datacap::Method::Transfer as u64,
+        IpldBlock::serialize_cbor(&params)?,
+        TokenAmount::zero(),
+    ))
+    .context(""",
+      new="""    rt.send_simple(
+        &DATACAP_TOKEN_ACTOR_ADDR,
+        ext::datacap::Method::Transfer as u64,
+        IpldBlock::serialize_cbor(&params)?,
+        TokenAmount::zero(),
+    )
+    .context(""", expect=r'send-exit-code-inspected:transfer'),
+ dict(id='C16-collect-payout-exit-code-ignored', pid='C16', file='actors/paych/src/lib.rs',
+      old="""        extract_send_result(rt.send_simple(&st.to, METHOD_SEND, None, st.to_send))
+            .map_err(|e| e.wrap("Failed to send funds to `to` address"))?;""",
+      new="""        rt.send_simple(&st.to, METHOD_SEND, None, st.to_send)
+            .context("Failed to send funds to `to` address")?;""", expect=r'send-exit-code-inspected:Actor::collect'),
+ dict(id='C06-withdraw-exit-code-ignored', pid='C06', file='actors/market/src/lib.rs',
+      old="""        extract_send_result(rt.send_simple(
+            &recipient,
+            METHOD_SEND,
+            None,
+            amount_extracted.clone(),
+        ))?;""",
+      new="""        rt.send_simple(&recipient, METHOD_SEND, None, amount_extracted.clone())
+            .context("failed to send funds")?;""", expect=r'send-exit-code-inspected:Actor::withdraw_balance'),
+ dict(id='C15-early-flag-wrong-deadline', pid='C15', file='actors/miner/src/state.rs',
+      old="""            self.early_terminations.set(dl_info.index);""",
+      new="""            self.early_terminations.set(self.current_deadline);""", expect=r'early-termination-queued:advance_deadline:deadline-index'),
+ dict(id='C15-early-flag-inverted', pid='C15', file='actors/miner/src/state.rs',
+      old="""        if !no_early_terminations {
+            self.early_terminations.set(dl_info.index);""",
+      new="""        if no_early_terminations {
+            self.early_terminations.set(dl_info.index);""", expect=r'early-termination-queued:advance_deadline:flagged-when-any'),
+ dict(id='C04-deadline-stored-under-next-index', pid='C04', file='actors/miner/src/state.rs',
+      old="""        deadlines.update_deadline(policy, store, dl_info.index, &deadline)?;
+
+        self.save_deadlines(store, deadlines)?;
+
+        Ok(AdvanceDeadlineResult {""",
+      new="""        deadlines.update_deadline(policy, store, self.current_deadline, &deadline)?;
+
+        self.save_deadlines(store, deadlines)?;
+
+        Ok(AdvanceDeadlineResult {""", expect=r'deadline-index:state::State::advance_deadline'),
+ dict(id='R-C15-early-flag-hoisted-index', pid='C15', file='actors/miner/src/state.rs',
+      old="""            self.early_terminations.set(dl_info.index);""",
+      new="""            let processed = dl_info.index;
+            self.early_terminations.set(processed);""", expect=None),
 ]
